@@ -731,11 +731,13 @@ class EvalFunc:
         for i, func_def_arg in enumerate(self.func_def.args.posonlyargs + self.func_def.args.args):
             var_name = func_def_arg.arg
             val = None
+            # a keyword named like a positional-only parameter goes into **kwargs if there is one
+            kw_ok = var_name in kwargs and not (i < self.num_posonly_arg and self.func_def.args.kwarg)
             if i < len(args):
                 val = args[i]
-                if var_name in kwargs:
+                if kw_ok:
                     raise TypeError(f"{self.name}() got multiple values for argument '{var_name}'")
-            elif var_name in kwargs:
+            elif kw_ok:
                 if i < self.num_posonly_arg:
                     bad_kwargs.append(var_name)
                 val = kwargs[var_name]
